@@ -24,4 +24,5 @@ INVARIANT ProtectThenAuth
 INVARIANT MacReadFresh
 INVARIANT MacReadAuthentic
 INVARIANT MacReadComplete
+INVARIANT NdefVerified
 CHECK_DEADLOCK FALSE
